@@ -253,7 +253,10 @@ fn add_graph_operator(
                 continue;
             }
             let index_usize = node_index as usize;
-            if let Some(node_id) = node_id_from_index.get(&index_usize) {
+            // Operator inputs must refer to value or constant nodes.
+            if let Some(node_id) = node_id_from_index.get(&index_usize)
+                && !matches!(graph.get_node(*node_id), Some(crate::graph::Node::Operator(_)))
+            {
                 inputs.push(Some(*node_id))
             } else {
                 return Err(load_error!(GraphError, name, "operator input is invalid"));
@@ -269,7 +272,10 @@ fn add_graph_operator(
                 continue;
             }
             let index_usize = node_index as usize;
-            if let Some(node_id) = node_id_from_index.get(&index_usize) {
+            // Operator outputs must refer to value nodes.
+            if let Some(node_id) = node_id_from_index.get(&index_usize)
+                && matches!(graph.get_node(*node_id), Some(crate::graph::Node::Value(_)))
+            {
                 outputs.push(Some(*node_id))
             } else {
                 return Err(load_error!(GraphError, name, "operator output is invalid"));
